@@ -224,6 +224,12 @@ def run_rules(mod, ctx: Ctx, only: Optional[set[str]] = None) -> None:
             if n_il:
                 ctx.note(f"index loops rewritten as enumerate / zip (sa/canon.py C9): {n_il}")
         rep = normalise_repo(ctx.repo, ctx.keep_names)
+        if os.environ.get("SA_NO_STRIP") != "1" and rep["inlined"]:
+            from .canon2 import strip_inline_suffixes_repo
+
+            n_ss = strip_inline_suffixes_repo(ctx.repo)
+            if n_ss:
+                ctx.note(f"inliner suffixes removed where the caller's name is dead (sa/canon2.py C17): {n_ss}")
         if os.environ.get("SA_NO_FLAGS") != "1" and rep["inlined"]:
             inline_test_flags_repo(ctx.repo)
         n_canon += canon_repo(ctx.repo)
